@@ -312,6 +312,8 @@ RULES = {
     "R4c": [("(self.format_for_stderr)(", "self.format_for_stderr.call("), ("(self.format_for_stdout)(", "self.format_for_stdout.call("),
             ("(handle.format_function)(", "handle.format_function.call("), ("(self.format_function)(", "self.format_function.call("),
             ("(format_function)(", "format_function.call(")],
+    # R11: std atomics (vstd owns their trivial specs): `.store(` / `.load(` -> shim methods with a permission / an oracle
+    "R11": [(".store(", ".vstore("), (".load(", ".vload(")],
     # R4: fn-pointer alias becomes an opaque shim
     "R4": [("FormatFunction", "VFormatFn")],
 }
